@@ -583,8 +583,9 @@ func caseTerm(o outcome) string {
 // ---------------------------------------------------------------------------------------- generation
 
 type gen struct {
-	w       *vlib.Writer
-	samples []interface{}
+	w            *vlib.Writer
+	samples      []interface{}
+	sampledKinds map[string]bool
 }
 
 func (g *gen) emit(d Desc, o outcome) {
@@ -643,7 +644,8 @@ func (g *gen) emit(d Desc, o outcome) {
 	if unexpected != "" {
 		g.w.Violation(idx, "C16-unexpected-result", "a call returned something the property does not allow: "+unexpected, map[string]interface{}{"desc": d})
 	}
-	if len(g.samples) < 4 && o.conc >= 2 && len(o.choices) >= 5 && g.w.Count()%97 == 3 {
+	if len(g.samples) < 5 && o.conc >= 2 && len(o.choices) >= 5 && o.bad == "" && !g.sampledKinds[d.Kind] {
+		g.sampledKinds[d.Kind] = true
 		g.samples = append(g.samples, map[string]interface{}{"desc": d, "coq_case": term})
 	}
 }
@@ -704,8 +706,8 @@ func randOp(rnd *vlib.Rand) Op {
 func main() {
 	vlib.Quiet()
 	o := vlib.ParseFlags()
-	w := vlib.NewWriter(o.Out, "C16_run", 150)
-	g := &gen{w: w}
+	w := vlib.NewWriter(o.Out, "C16_run", 300)
+	g := &gen{w: w, sampledKinds: map[string]bool{}}
 	rule := "every case is one forced schedule of the real ocache (one scheduler action at a time, exact quiescence " +
 		"between actions): exhaustive enumeration of all schedules (incl. load ok/err and try-close verdicts) of all " +
 		"unordered pairs over {get,pick,add,remove,tryremove,removesame,gc,close} on id 1 with and without a preloaded " +
@@ -756,6 +758,12 @@ func main() {
 		}
 	}
 	rnd := vlib.NewRand(o.Seed)
+	// selected triples around a preloaded instance, exhaustively (capped) in every tier
+	get1, rm1, try1, gc, cl := alphabet[0], alphabet[3], alphabet[4], alphabet[6], alphabet[7]
+	for _, tr := range [][]Op{{try1, rm1, get1}, {get1, get1, rm1}, {gc, rm1, get1}, {cl, get1, try1}, {rm1, rm1, get1}} {
+		d := Desc{Kind: "triple-selected", Setup: setups[1], Progs: [][]Op{{tr[0]}, {tr[1]}, {tr[2]}}}
+		nSched += g.explore(d, 200*o.Budget)
+	}
 	// triples
 	if capTriple > 0 {
 		for i := 0; i < len(alphabet); i++ {
